@@ -480,12 +480,13 @@ func (x *srv) seed(db string) error {
 			return fmt.Errorf("seed ref: %w", err)
 		}
 		if _, err := x.ic.SQLExec(ctx, &schema.SQLExecRequest{Sql: fmt.Sprintf(
-			"CREATE TABLE %s (id INTEGER, s VARCHAR[64], PRIMARY KEY id); INSERT INTO %s (id, s) VALUES (1, 'row-%s'), (2, 'row2-%s');", seedTable, seedTable, m, m)}); err != nil {
+			"CREATE TABLE IF NOT EXISTS %s (id INTEGER, s VARCHAR[64], PRIMARY KEY id); UPSERT INTO %s (id, s) VALUES (1, 'row-%s'), (2, 'row2-%s');", seedTable, seedTable, m, m)}); err != nil {
 			return fmt.Errorf("seed sql: %w", err)
 		}
 		if _, err := x.dc.CreateCollection(ctx, &protomodel.CreateCollectionRequest{Name: seedColl, DocumentIdFieldName: "_id",
 			Fields:  []*protomodel.Field{{Name: "tag", Type: protomodel.FieldType_STRING}, {Name: "n", Type: protomodel.FieldType_INTEGER}},
-			Indexes: []*protomodel.Index{{Fields: []string{"n"}}}}); err != nil {
+			Indexes: []*protomodel.Index{{Fields: []string{"n"}}}}); err != nil && !strings.Contains(err.Error(), "already exists") {
+			// ("already exists": the step is repeated when the administrative session was lost half-way)
 			return fmt.Errorf("seed collection: %w", err)
 		}
 		doc, _ := structpb.NewStruct(map[string]interface{}{"tag": "doc-" + m, "n": 1})
